@@ -352,6 +352,68 @@ func VerifH_C06_cancel_anytime() {
 	verifCheck(t, run, res, verifNorm(in), vCheckOpts{cancelled: true})
 }
 
+// C19: the input document is an object (the usual case): every reference to one of its fields - from a
+// step and from the workflow output - observes the field as normalised by the schema, S(U(x)).
+func VerifH_C19_object_input() {
+	t := tWorkflow{
+		steps: []tStep{
+			{id: "a", fields: map[string]any{"input": verifStepInput(vx("input", "k"))}, outcome: map[string]int{"deploy": 0, "start": 0, "result": 0}},
+		},
+		outputs: map[string]any{"success": map[any]any{"a": vx("steps", "a", "outputs", "success", "v"), "in": vx("input", "k")}},
+	}
+	ew, run := verifPrepare(t)
+	k := verifrt.NondetVal("input.k")
+	res := verifExecute(ew, run, t, any(map[string]any{"k": k}))
+	verifrt.Assert(res.err == nil && res.id == "success", "a valid input is accepted and the run produces its output")
+	if res.err != nil {
+		return
+	}
+	verifrt.Reach("accepted")
+	want := any(verifNorm(k))
+	for _, h := range run.handovers {
+		if h.stage == "starting" {
+			verifrt.Reach("step-saw-input")
+			verifrt.Assert(h.input["input"].(map[any]any)["x"] == want, "every step observes the schema-normalised input S(U(x))")
+		}
+	}
+	m, ok := res.data.(map[any]any)
+	verifrt.Assert(ok && m["in"] == want, "the workflow output observes the schema-normalised input S(U(x))")
+}
+
+// C06: the caller cancels and closing the steps takes longer than the fixed grace period (5 s): the run
+// still ends with an error or an output - never with neither - and not later than the grace period plus the
+// time the steps need to close.
+func VerifH_C06_grace_expires() {
+	t := verifChain2()
+	t.steps[0].outcome = map[string]int{"deploy": 0, "start": 0, "result": 3, "slow-close": 1}
+	ew, run := verifPrepare(t)
+	in := verifrt.NondetVal("input")
+	res := &vResult{}
+	ctx, cancel := context.WithCancel(context.Background())
+	run.cancel = cancel
+	run.cancelAt = 1 + verifrt.Choice("cancelAt", verifrt.Param("maxEvents", 6))
+	verifrt.Go(func() {
+		verifrt.AwaitQuiescence()
+		verifAtomicMark(res, run, t)
+		if !run.cancelled {
+			run.cancelled = true
+			run.cancelT = verifrt.Now()
+		}
+		cancel()
+	})
+	res.id, res.data, res.err = ew.Execute(ctx, in)
+	tEnd := verifrt.Now()
+	verifAtomicReturned(res)
+	cancel()
+	verifrt.Assert((res.err == nil) != (res.id == ""), "a cancelled run ends with an error or an output, never with neither or both")
+	if run.cancelled {
+		verifrt.Reach("cancelled")
+		verifrt.Assert((tEnd-run.cancelT)/1000000 <= 5000+6000, "after cancellation the run returns within the grace period plus the time the steps need to close")
+	}
+	verifrt.Settle()
+	verifrt.Assert(verifrt.LiveGoroutines() == 0, "no goroutine survives the run")
+}
+
 // C08 (validation order): a stage input is handed to a step only after its schema accepted it, and an
 // output is returned only after the output schema accepted its data.
 func VerifH_C08_validation_order() {
@@ -539,6 +601,35 @@ func VerifH_C15_optional_two_sources() {
 	in := verifrt.NondetVal("input")
 	res := verifExecute(ew, run, t, in)
 	verifCheck(t, run, res, verifNorm(in), vCheckOpts{})
+}
+
+// C07: a one-of whose alternatives are themselves optional values (so the selected alternative may resolve
+// to nothing at run time) in a step input and in the workflow output: whatever the sources do, the run ends
+// with an output or an error - the odd shape never crashes a step's goroutine.
+func VerifH_C07_oneof_of_optionals() {
+	alt := func() *infer.OneOfExpression {
+		return &infer.OneOfExpression{Discriminator: "kind", Options: map[string]any{
+			"good": &infer.OptionalExpression{Expr: vx("steps", "a", "outputs", "success"), WaitForCompletion: true},
+			"bad":  &infer.OptionalExpression{Expr: vx("steps", "a", "outputs", "error"), WaitForCompletion: true},
+		}}
+	}
+	t := tWorkflow{
+		steps: []tStep{
+			{id: "a", fields: map[string]any{"input": verifStepInput(vx("input"))}, outcome: map[string]int{"deploy": 0}},
+			{id: "b", fields: map[string]any{"input": map[any]any{"x": alt()}}, outcome: map[string]int{"deploy": 0, "start": 0, "result": 0}},
+		},
+		outputs: map[string]any{"success": map[any]any{"o": alt()}},
+	}
+	ew, run := verifPrepare(t)
+	res := verifExecute(ew, run, t, verifrt.NondetVal("input"))
+	if a := run.steps["a"]; res.stuck && a != nil && a.never {
+		return // the source never ends: waiting for it is what a wait-optional value asks for
+	}
+	verifrt.Assert(!res.stuck, "the run returns")
+	verifrt.Assert((res.err == nil) != (res.id == ""), "Execute returns either an output or an error, never both or neither")
+	if res.err != nil {
+		verifrt.Reach("error")
+	}
 }
 
 // C15: a wait-optional field inside the object of a one-of alternative (tags nested in one another).
